@@ -549,6 +549,8 @@ func init() {
 							s.OK(key, c.P.Pos(store.Pos()), "the URL is allocated in this function: no handle can exist yet")
 						case guarded(f, fa.X, b):
 							s.OK(key, c.P.Pos(store.Pos()), "guarded by searchParams == nil")
+						case keepsExisting(store, fa.X, func(pb *ssa.BasicBlock) bool { return guardedEdge(f, fa.X, pb, store.Val) }):
+							s.OK(key, c.P.Pos(store.Pos()), "stores back the list the field already holds; a new one only on the edge where searchParams == nil")
 						default:
 							if p, ok := fa.X.(*ssa.Parameter); ok && !ast.IsExported(f.Name()) {
 								for i, q := range f.Params {
@@ -672,22 +674,35 @@ func init() {
 							if z, ok := loadOfField(ld.X, "Url:query"); !ok || m.Root(z) != u {
 								return false
 							}
-							if isList(m, cc.Args[0]) {
-								return true
-							}
-							// a list allocated here whose url field is set to u (it becomes u.searchParams: PAIR-handle/store rows)
-							if al, ok := cc.Args[0].(*ssa.Alloc); ok && namedOf(al.Type()) == "SearchParams" {
-								for _, r := range *al.Referrers() {
-									if fa, ok := r.(*ssa.FieldAddr); ok && fieldElem(fa.X.Type(), fa.Field) == "SearchParams:url" {
-										for _, r2 := range *fa.Referrers() {
-											if st, ok := r2.(*ssa.Store); ok && m.Root(st.Val) == u {
-												return true
+							var okList func(v ssa.Value, depth int) bool
+							okList = func(v ssa.Value, depth int) bool {
+								if isList(m, v) {
+									return true
+								}
+								// a list allocated here whose url field is set to u (it becomes u.searchParams: PAIR-handle/store rows)
+								if al, ok := v.(*ssa.Alloc); ok && namedOf(al.Type()) == "SearchParams" {
+									for _, r := range *al.Referrers() {
+										if fa, ok := r.(*ssa.FieldAddr); ok && fieldElem(fa.X.Type(), fa.Field) == "SearchParams:url" {
+											for _, r2 := range *fa.Referrers() {
+												if st, ok := r2.(*ssa.Store); ok && m.Root(st.Val) == u {
+													return true
+												}
 											}
 										}
 									}
 								}
+								// the existing list or, failing that, a new one
+								if phi, ok := v.(*ssa.Phi); ok && depth < 3 {
+									for _, e := range phi.Edges {
+										if !okList(e, depth+1) {
+											return false
+										}
+									}
+									return len(phi.Edges) > 0
+								}
+								return false
 							}
-							return false
+							return okList(cc.Args[0], 0)
 						}
 						// a fresh list of a URL whose query is nil needs no init: excuse the nil side of a test of u.query
 						excuse := func(m *fnode, succ int) bool {
@@ -1154,4 +1169,45 @@ func init() {
 			}
 		},
 	})
+}
+
+// keepsExisting: the stored value is a merge each of whose edges is the list the field already holds (a load of the
+// same field of the same URL) or a new list arriving on an edge accepted by freshOK.
+func keepsExisting(store *ssa.Store, owner ssa.Value, freshOK func(pred *ssa.BasicBlock) bool) bool {
+	phi, ok := store.Val.(*ssa.Phi)
+	if !ok {
+		return false
+	}
+	for i, e := range phi.Edges {
+		if x, ok := loadOfField(e, "Url:searchParams"); ok && x == owner {
+			continue
+		}
+		if _, isAlloc := e.(*ssa.Alloc); isAlloc && i < len(phi.Block().Preds) && freshOK(phi.Block().Preds[i]) {
+			continue
+		}
+		return false
+	}
+	return true
+}
+
+// guardedEdge: block pb lies on the nil side of a test of owner.searchParams (directly, or of a local copy of it).
+func guardedEdge(f *ssa.Function, owner ssa.Value, pb *ssa.BasicBlock, _ ssa.Value) bool {
+	for _, b := range f.Blocks {
+		iff, ok := lastIf(b)
+		if !ok {
+			continue
+		}
+		y, trueIsNil, ok := nilTest(iff.Cond, "Url:searchParams")
+		if !ok || y != owner {
+			continue
+		}
+		succ := b.Succs[1]
+		if trueIsNil {
+			succ = b.Succs[0]
+		}
+		if len(succ.Preds) == 1 && (succ == pb || succ.Dominates(pb)) {
+			return true
+		}
+	}
+	return false
 }
